@@ -151,6 +151,7 @@ class World:
         self.zones = [f"{i:02X}" for i in sorted(rng.sample(range(12), n_zones))]
         self.trvs = {z: f"04:1000{int(z, 16):02d}" for z in self.zones}
         self.dhw_sensor, self.bdr = "07:100020", "13:100022"
+        self.ufc, self.fan = "02:100030", "32:100040"
         self.model: dict[tuple[str, str], tuple[Any, float, float | None, str]] = {}  # value, vt, lifetime, form
 
     def schema(self) -> dict[str, Any]:
@@ -159,8 +160,10 @@ class World:
                 "zones": {z: {"class": "radiator_valve", "actuators": [self.trvs[z]]} for z in self.zones},
                 "stored_hotwater": {"sensor": self.dhw_sensor},
                 "system": {"appliance_control": self.bdr},
+                "underfloor_heating": {self.ufc: {}},
             },
             "main_tcs": CTL,
+            "known_list": {self.fan: {"class": "FAN"}},
         }
 
     def temp(self) -> float:
@@ -169,7 +172,7 @@ class World:
     def step(self) -> tuple[str, list[tuple[tuple[str, str], Any, float | None, str]]]:
         """One packet: (frame, [(model key, value, lifetime, form)])."""
         r = self.rng
-        kind = r.choice(("30C9a", "30C9s", "2309a", "2309s", "2349", "000Aa", "000As", "12B0", "10A0", "1F41", "2E04", "3150FC", "0008FC", "trv30C9", "trv3150", "dhw1260", "bdr3EF0"))
+        kind = r.choice(("30C9a", "30C9s", "2309a", "2309s", "2349", "000Aa", "000As", "12B0", "10A0", "1F41", "2E04", "3150FC", "0008FC", "trv30C9", "trv3150", "dhw1260", "bdr3EF0", "ufc3150FC", "ufc0008FC", "ufc3150a", "fan31D9", "fan31DA"))
         zs = sorted(r.sample(self.zones, r.randint(1, len(self.zones))))
         z = r.choice(self.zones)
         ups: list[tuple[tuple[str, str], Any, float | None, str]] = []
@@ -237,6 +240,26 @@ class World:
             d = r.randrange(0, 201)
             frame = f" I --- {self.trvs[z]} --:------ {CTL} 3150 002 {z}{d:02X}"
             ups = [((f"trv {z}", "heat_demand"), d / 200, life("3150", " I", False), "I")]
+        elif kind == "ufc3150FC":  # an underfloor-heating controller's own demands
+            d = r.randrange(0, 201)
+            frame = f" I --- {self.ufc} --:------ {self.ufc} 3150 002 FC{d:02X}"
+            ups = [(("ufc", "heat_demand"), d / 200, life("3150", " I", False), "I")]
+        elif kind == "ufc0008FC":
+            d = r.randrange(0, 201)
+            frame = f" I --- {self.ufc} --:------ {self.ufc} 0008 002 FC{d:02X}"
+            ups = [(("ufc", "relay_demand"), d / 200, life("0008", " I", False), "I")]
+        elif kind == "ufc3150a":
+            ds = [r.randrange(0, 201) for _ in range(r.choice((2, 3, 5)))]
+            frame = f" I --- {self.ufc} --:------ {self.ufc} 3150 {2 * len(ds):03d} " + "".join(f"{i:02X}{d:02X}" for i, d in enumerate(ds))
+            ups = [(("ufc", "heat_demands"), [d / 200 for d in ds], life("3150", " I", True), "array")]
+        elif kind == "fan31D9":  # a ventilator's status
+            d = r.randrange(0, 201)
+            frame = f" I --- {self.fan} --:------ {self.fan} 31D9 003 0000{d:02X}"
+            ups = [(("fan", "31D9.fan_mode"), f"{d:02X}", life("31D9", " I", False), "I")]
+        elif kind == "fan31DA":
+            mins = r.randrange(0, 200)
+            frame = f" I --- {self.fan} --:------ {self.fan} 31DA 029 00EF007FFFEFEF7FFF7FFF7FFF7FFFF000EF0DB000{mins:04X}EFEF7FFF7FFF"
+            ups = [(("fan", "31DA.remaining_mins"), mins, life("31DA", " I", False), "I")]
         elif kind == "dhw1260":
             v = self.temp()
             frame = f" I --- {self.dhw_sensor} --:------ {self.dhw_sensor} 1260 003 00{hx_temp(v)}"
@@ -276,6 +299,14 @@ def read_attr(gwy, world: World, key: tuple[str, str]) -> Any:
         return tcs.heat_demand
     if ent.startswith("trv "):
         return getattr(gwy.device_by_id[world.trvs[ent[4:]]], attr)
+    if ent == "ufc":
+        dev = gwy.device_by_id[world.ufc]
+        if attr == "heat_demands":
+            hd = dev.heat_demands
+            return None if hd is None else [e["heat_demand"] for e in (hd if isinstance(hd, list) else [hd])]
+        return getattr(dev, attr)
+    if ent == "fan":
+        return gwy.device_by_id[world.fan].status.get(attr.split(".")[1])
     if ent == "dhw sensor":
         return gwy.device_by_id[world.dhw_sensor].temperature
     return gwy.device_by_id[world.bdr].active
